@@ -13,6 +13,7 @@ import (
 	"sort"
 	"strings"
 	"sync"
+	"sync/atomic"
 	"testing"
 	"testing/synctest"
 	"time"
@@ -189,6 +190,10 @@ type lcState struct {
 	emitted    map[uint32]bool // media SSRCs mentioned by RTCP emissions since the last op
 	rtcpN      int
 	failAt     map[int]bool
+	errKinds   []string // WHICH error the failing writers return (ambient_test.go, AmbErrOf), in turn
+	nFail      int64
+	rtpFail    ambSched // calls of the stream writers that fail
+	rtpN       int64
 	rtpOut     []string
 	writers    map[uint32]interceptor.RTPWriter
 	readers    map[uint32]interceptor.RTPReader
@@ -253,6 +258,16 @@ func (s *lcState) call(o *Out, f func()) {
 	}
 }
 
+// failErr is the value the next failing writer call returns: io.ErrClosedPipe unless the case names its kinds
+// (`new … err=osclosed,eof!`); the interceptor is still bound and must keep working whatever the value.
+func (s *lcState) failErr() error {
+	if len(s.errKinds) == 0 {
+		return io.ErrClosedPipe
+	}
+	n := atomic.AddInt64(&s.nFail, 1)
+	return AmbErrOf(s.errKinds[int(n-1)%len(s.errKinds)], n)
+}
+
 func (s *lcState) flush(o *Out, tag string) {
 	s.mu.Lock()
 	var ss []uint32
@@ -302,9 +317,23 @@ func lcRun(t *testing.T, ops []string, o *Out) {
 				}
 				switch name {
 				case "new":
+					if k := a["err"]; k != "" {
+						s.errKinds = strings.Split(k, ",")
+					}
+					s.rtpFail = parseSched(a["rtpfailat"])
 					mk := lcKinds[a["kind"]]
 					if mka, ok := lcKindsApp[a["kind"]]; ok && app != nil {
 						mk = func() (interceptor.Factory, error) { return mka(app) }
+					}
+					if df := a["dumpfail"]; df != "" && (a["kind"] == "dumps" || a["kind"] == "dumpr") {
+						// the dump output (an io.Writer the application supplied: a file, a pipe) fails at chosen calls
+						mk = func() (interceptor.Factory, error) {
+							out := &AmbFailWriter{Sched: parseSched(df), Kinds: s.errKinds}
+							if a["kind"] == "dumps" {
+								return packetdump.NewSenderInterceptor(packetdump.RTPWriter(out), packetdump.RTCPWriter(out))
+							}
+							return packetdump.NewReceiverInterceptor(packetdump.RTPWriter(out), packetdump.RTCPWriter(out))
+						}
 					}
 					f, err := mk()
 					if err != nil {
@@ -343,7 +372,7 @@ func lcRun(t *testing.T, ops []string, o *Out) {
 								<-g
 							}
 							if fail {
-								return 0, io.ErrClosedPipe
+								return 0, s.failErr()
 							}
 							return 0, nil
 						}))
@@ -394,7 +423,12 @@ func lcRun(t *testing.T, ops []string, o *Out) {
 								if s.closedAt && !s.appWriting {
 									s.lateRTP++ // not the pass-through of an application write: sent by the interceptor itself
 								}
+								s.rtpN++
+								fail := s.rtpFail.hit(s.rtpN)
 								s.mu.Unlock()
+								if fail {
+									return 0, s.failErr()
+								}
 								return len(p), nil
 							}))
 					})
@@ -670,6 +704,20 @@ func init() {
 			ops := []string{"new kind=" + kind}
 			if r.Chance(1, 4) {
 				ops[0] += fmt.Sprintf(" failat=%d,%d", r.Range(1, 4), r.Range(5, 9))
+			}
+			// which error, and when: the failing writers (RTCP writer, stream writers, the dump output of packetdump)
+			// return well-known sentinel values; the interceptor stays bound and traffic goes on
+			if wr := NewRng(r.U64()); wr.Chance(2, 3) {
+				if !strings.Contains(ops[0], "failat=") {
+					ops[0] += " failat=" + []string{"1", "2", "1,2,3", "2,4,6,8", "1,3,5,7,9"}[wr.Intn(5)]
+				}
+				ops[0] += " " + strings.Replace(ambErrKinds(wr), "errs=", "err=", 1)
+				if wr.Chance(1, 2) {
+					ops[0] += " rtpfailat=" + []string{"1", "2", "1,2", "%2", "%3", "%1", "%1", "%2"}[wr.Intn(8)]
+				}
+				if kind == "dumps" || kind == "dumpr" {
+					ops[0] += " dumpfail=" + []string{"1", "2", "1,2", "%2", "%3", "%1", "%1", "%2"}[wr.Intn(8)]
+				}
 			}
 			templ := idx / len(kinds) % 9
 			seq := 1
